@@ -1,5 +1,7 @@
 """C12 plugin: rendezvous probe order (see CONVENTIONS.md for the plugin interface)."""
 import hashlib
+import os
+import subprocess
 
 ID = "C12"
 RULE = ("service sets of 1-32 generated uuids (27-character and other lengths, some sharing their last 15 "
@@ -16,10 +18,33 @@ DRIVERS = {
 }
 
 ALNUM = "abcdefghijklmnopqrstuvwxyz0123456789"
+DIGITS = "0123456789abcdefghijklmnopqrstuvwxyz"
+
+VERIF = os.path.dirname(os.path.dirname(os.path.dirname(os.path.abspath(__file__))))
+# statements of balanceBlock that get a schedule point (op balpair suspends one call there)
+BAL_MATCH = "keepclient.,sort.,make,trySlot,computeBlockState,bal.Dumper"
+
+
+def overlay_generated(repo, workdir):
+    """Add-only instrumented copy of the CURRENT services/keep-balance/balance.go: verifC12Point before the
+    statements of balanceBlock that allocate, rank, sort and place (a no-op unless a `balpair` case
+    installs the park-and-release hook)."""
+    out = os.path.join(workdir, "balance.c12.go")
+    inst = os.path.join(VERIF, "build", "instrument")
+    try:
+        if not os.path.exists(inst):
+            env = dict(os.environ, GOFLAGS="-mod=mod", GOPROXY="off", GOSUMDB="off", GOTOOLCHAIN="local")
+            subprocess.check_call(["go", "build", "-o", inst, "./instrument"], cwd=os.path.join(VERIF, "translator"), env=env)
+        subprocess.check_call([inst, "-in", os.path.join(repo, "services/keep-balance/balance.go"), "-out", out,
+                               "-points", os.path.join(workdir, "points.c12.json"), "-hook", "verifC12Point",
+                               "-match", BAL_MATCH, "-exclude", "bal.Logger", "-funcs", "balanceBlock"])
+    except Exception as e:  # the driver build then fails and is reported as a broken correspondence
+        open(out, "w").write("package main\n\nfunc init() { instrumenter failed: %s }\n" % str(e).replace("\n", " "))
+    return {"services/keep-balance/balance.go": out}
 
 
 def channel(case):
-    return "kb" if case.startswith("bal ") else "kc"
+    return "kb" if case.startswith(("bal ", "balpair ", "balsweep ")) else "kc"
 
 
 def _uuid(rng, ties_pool):
@@ -54,6 +79,13 @@ def generate(rng, tier):
         k = rng.choice([1, 2, 3, 4, 5, 8, 16, 32]) if rng.random() < 0.5 else rng.randint(1, 32)
         op = rng.choice(["order", "read", "write", "bal", "roots", "order", "reload"])
         h = _hash(rng)
+        if op == "bal" and rng.random() < 0.3:
+            # two blocks balanced on ONE Balancer with overlapping balanceBlock calls: every point at
+            # which one call can be suspended while the other runs, in both roles
+            us = _uuids(rng, min(max(k, 2), 8), ties=False)
+            rep = rng.choice([1, 1, 2])
+            cases.append(f"balpair {h} {_hash(rng)} {','.join(us)}" + ("" if rep == 1 else f" {rep}"))
+            continue
         if op == "reload":
             # discovery refresh: the same client loads 2-3 service lists in turn; some refreshes keep
             # the endpoints and change the uuids (services re-registered), some add/remove a service
@@ -71,7 +103,16 @@ def generate(rng, tier):
                     i = rng.randrange(len(prev))
                     nxt = prev[:i] + prev[i + 1:]
                 else:
-                    nxt = prev + [(_uuids(rng, 1, ties=False)[0], f"h{len(prev) + rng.randint(10, 99)}.example")]
+                    # a new service on an endpoint no listed service uses (two services on one
+                    # endpoint cannot be told apart by the request-recording driver)
+                    used = {hst for l in lists for _, hst in l}
+                    hst = f"h{len(prev) + rng.randint(10, 99)}.example"
+                    while hst in used:
+                        hst = f"h{len(prev) + rng.randint(10, 999)}.example"
+                    nu = _uuids(rng, 1, ties=False)[0]
+                    while any(nu == u for l in lists for u, _ in l):
+                        nu = _uuids(rng, 1, ties=False)[0]
+                    nxt = prev + [(nu, hst)]
                 lists.append(nxt)
             enc = ";".join(",".join(f"{u}:{hst}" for u, hst in l) for l in lists)
             if all(":" not in u for l in lists for u, _ in l):
@@ -139,6 +180,11 @@ def generate(rng, tier):
             if k > 1 and rng.random() < 0.5:
                 i = rng.randrange(k)
                 cases.append(f"{op} {h} {','.join(us[:i] + us[i + 1:])}")
+    # whole sweeps: many blocks through one ComputeChangeSets call (real worker pool, >= 8 workers)
+    for _ in range(6 if tier == "quick" else 40):
+        k = rng.randint(3, 16)
+        us = _uuids(rng, k, ties=False)
+        cases.append(f"balsweep {_hash(rng)} {','.join(us)} {rng.choice([500, 2000, 4000])}:{rng.randint(1, min(3, k - 1))}")
     return cases
 
 
@@ -148,6 +194,14 @@ def _split(s):
 
 def compare(case, impl, model):
     """impl is one concrete order; model is the allowed set written as tie groups."""
+    if case.startswith("balsweep "):
+        return impl == model
+    if case.startswith("balpair "):
+        f = case.split(" ")
+        ii, mm = impl.split(" / "), model.split(" / ")
+        if len(ii) != 2 or len(mm) != 2:
+            return False
+        return all(compare(f"bal {h} x", a, b) for h, a, b in zip(f[1:3], ii, mm))
     if case.startswith("reload "):
         f = case.split(" ")
         lists = f[2].split(";")
@@ -194,8 +248,39 @@ def oracle(case, impl):
     if impl.startswith("not-nested"):
         return ("keep-balance's wanted slots for desired replication 1..N are not nested in one ranking, so it does "
                 "not rank the servers in the rendezvous order: " + impl[:200])
+    if impl.startswith("schedule-dependent"):
+        return ("keep-balance's ranking of a block depends on another block being balanced at the same time, so it is "
+                "not a function of the service set and the hash: " + impl[:600])
     if impl.startswith(("panic", "CRASH", "unexpected", "short")):
         return "driver could not observe an order: " + impl[:200]
+    if f[0] == "balpair":
+        parts = impl.split(" / ")
+        if len(parts) != 2:
+            return "malformed balpair output: " + impl[:200]
+        for h, a in zip(f[1:3], parts):
+            why = oracle(f"bal {h} {f[3]}", a)
+            if why:
+                return f"block {h} balanced together with another block: {why}"
+        return None
+    if f[0] == "balsweep":
+        us = _split(f[2])
+        n, d = (int(x) for x in f[3].split(":"))
+        parts = impl.split(",")
+        if len(parts) != n:
+            return "malformed balsweep output: " + impl[:200]
+        bad = []
+        for i, got in enumerate(parts):
+            h = hashlib.md5(f"{f[1]}:{i}".encode()).hexdigest()
+            ws = sorted(((_weight(h, u), j) for j, u in enumerate(us)), reverse=True)
+            if len({w for w, _ in ws}) < len(ws):
+                continue
+            want = "".join(sorted(DIGITS[j] for _, j in ws[:d]))
+            if got != want:
+                bad.append(f"block {i} ({h}): wanted on servers {got}, first {d} of the probe order are {want}")
+        if bad:
+            return (f"{len(bad)} of {n} blocks balanced in one ComputeChangeSets sweep are not placed on the first {d} "
+                    f"servers of the clients' probe order, e.g. " + "; ".join(bad[:3]))
+        return None
     if f[0] == "reload":
         lists = f[2].split(";")
         parts = impl.split(" / ")
@@ -247,9 +332,13 @@ def oracle(case, impl):
     return None
 
 
+def _uuid_field(f):
+    return f[3] if f[0] == "balpair" else f[2]
+
+
 def nontrivial_key(case, impl):
     f = case.split(" ")
-    n = len(_split(f[2].split(";")[0]))
+    n = len(_split(_uuid_field(f).split(";")[0]))
     return case if n >= 2 else None
 
 
@@ -262,7 +351,7 @@ def describe(cases, impl):
         d[f[0]] = d.get(f[0], 0) + 1
         if f[0] == "bal" and len(f) == 4:
             d["bal_rep>1"] = d.get("bal_rep>1", 0) + 1
-        n = len(_split(f[2].split(";")[0]))
+        n = len(_split(_uuid_field(f).split(";")[0]))
         b = "1" if n == 1 else "2-4" if n <= 4 else "5-16" if n <= 16 else "17-32"
         sizes[b] = sizes.get(b, 0) + 1
     ties = 0
@@ -278,7 +367,13 @@ def describe(cases, impl):
 def neighbours(case, rng):
     f = case.split(" ")
     out = []
-    if f[0] in ("order", "read", "bal"):
+    if f[0] == "balpair":
+        for _ in range(4):
+            out.append(" ".join([f[0], _hash(rng), _hash(rng)] + f[3:]))
+    elif f[0] == "balsweep":
+        for _ in range(3):
+            out.append(f"balsweep {_hash(rng)} {f[2]} {f[3]}")
+    elif f[0] in ("order", "read", "bal"):
         us = _split(f[2])
         sfx = "" if len(f) < 4 else " " + f[3]
         for _ in range(5):
